@@ -13,6 +13,7 @@ re-tokenizes to the same tokens (needs tokenizer ∘ parser ∘ render as one ob
 import Emboss.Lemmas.FmtSanity
 import Emboss.Lemmas.FmtTableOK
 import Emboss.Lemmas.FmtNormalOK
+import Emboss.Lemmas.FmtSeparableOK
 namespace Emboss.Fmt
 open Emboss.Generated.FmtTable
 
@@ -115,6 +116,47 @@ example : wf formatters exTree = true ∧ layoutBlank exTree = true ∧
     formatTree 3 exTree = some (.str "-- hi\n# c\n".toList) ∧
     contentLeaves exTree = ["-- hi  ".toList, "# c".toList] := by
   decide +kernel
+
+/-! ## Token boundaries -/
+
+open Emboss.Generated.FmtGlue in
+/-- **Separability, as a certificate checked in the kernel** over the whole regenerated
+registry (interned copy `formattersN`, which `C11_table_ok` shows to decode to
+`formatters`) and the regenerated tables of Generated/FmtGlue.lean:
+
+* `nsN` is closed under the nullable rule, `fsN`/`lsN` under the FIRST/LAST rules, and every
+  symbol of `leadN` is a nonterminal all of whose productions render with a leading blank
+  relative to `leadN` — so the tables contain every nullable symbol, FIRST and LAST of
+  every nonterminal, and only symbols whose rendering (when non-empty) starts with a
+  blank (see Spec/FmtGlueCert.lean for the argument; it is not formalised);
+* **every pair of terminals** (LAST of one argument, FIRST of a later one, everything
+  between nullable) that some handler prints with nothing in between (`glue`: per handler,
+  between which arguments no blank is inserted; a symbol of `leadN` is never glued to its
+  left neighbour; `-` `-` is kept apart by `_additive_expression_right`) **is in the audited
+  list `allowedGlued`** — 239 pairs, no word–word pair, none that the tokenizer reads as one
+  token or splits elsewhere (each sampled on the real tokenizer on every run): no unsplit
+  pair.  Before commit 81a07e9 the pair `-` `-` was derived as well (`a - -b` → `a--b`).
+
+The compiled checker evaluates the fixpoint formulation (`gluedOK`, op `GLUECHECK`) on the
+table of strings on every run as well.  There is no theorem connecting `glue` to the
+handlers' code (that link is the byte-identical correspondence), nor a model of the
+tokenizer (sampling). -/
+theorem C11_render_separable :
+    symbols[minusN]? = some minusSym ∧
+    nullableClosed ((resolvedN formattersN).map (fun e => (e.1, e.2.1))) nsN = true ∧
+    edgeClosed ((resolvedN formattersN).map (fun e => (e.1, e.2.1))) nsN false fsN = true ∧
+    edgeClosed ((resolvedN formattersN).map (fun e => (e.1, e.2.1))) nsN true lsN = true ∧
+    leadSound (resolvedN formattersN) nsN leadN = true ∧
+    ∀ p ∈ pairsFrom minusN (resolvedN formattersN) nsN fsN lsN leadN,
+      ∃ a b, symbols[p.1]? = some a ∧ symbols[p.2]? = some b ∧ (a, b) ∈ allowedGlued :=
+  render_separable
+
+open Emboss.Generated.FmtGlue in
+/-- Non-vacuity (tests on literals, evaluated in Lemmas/FmtSeparableOK.lean): pairs are
+derived — e.g. `-` `Number` — and `-` `-` is not among them. -/
+example : (minusN, symbols.idxOf "Number") ∈ pairsFrom minusN (resolvedN formattersN) nsN fsN lsN leadN ∧
+    (minusN, minusN) ∉ pairsFrom minusN (resolvedN formattersN) nsN fsN lsN leadN :=
+  render_separable_nonvacuous
 
 /-! ## Normal form and fixed point -/
 
